@@ -3,12 +3,12 @@
 # ./run.sh replay <file>         re-execute a replay file
 # ./run.sh setup                 build the simulator and run the determinism self-test
 # Exit codes: 0 held, 1 violation (VIOLATION line printed), 2 harness error.
-cd /verif/sim || exit 2
+cd "$(dirname "$0")/sim" || exit 2
 export CARGO_NET_OFFLINE=true
 mkdir -p target
 if ! cargo build --release --offline > target/build.log 2>&1; then
     tail -40 target/build.log
-    echo "HARNESS-ERROR: simulator build failed (see /verif/sim/target/build.log)"
+    echo "HARNESS-ERROR: simulator build failed (see sim/target/build.log)"
     exit 2
 fi
 case "$1" in
